@@ -268,3 +268,24 @@ package reg
 //@   in ~/scheme/reg
 //@   infunc \)\.blobPutUploadChunked$
 //@   requires relative-to-the-request-just-answered: recv == caller.httpResp.Request.URL
+
+// C10 "across paged responses": the listing through the referrers API follows the registry's
+// rel="next" links to the end - it reports success only after a page that carried no next link,
+// whatever the pages held (a page may be empty after server-side filtering and still be followed by
+// further pages) - and every page after the first is asked for with the link the previous one gave.
+//@ ghost $lastPageHadNoNext bool
+//@ ghost $prevNext *url.URL
+//@ func (*Reg).referrerListByAPI(ctx, r, config) (rl, err)
+//@   prop C10
+//@   entry-assume !$lastPageHadNoNext && $prevNext == nil
+//@   on-call referrerListByAPIPage: $lastPageHadNoNext = (result1 == nil && result2 == nil)
+//@   on-call referrerListByAPIPage: $prevNext = result1
+//@   ensures every-page-followed-to-the-last: err == nil ==> $lastPageHadNoNext
+//@   loop 0 ()
+//@     invariant pages-in-sequence: link == $prevNext
+//@ callsite (*Reg).referrerListByAPIPage(ctx, r, config, link)
+//@   prop C10
+//@   name referrerListByAPIPage/paging
+//@   in ~/scheme/reg
+//@   infunc \)\.referrerListByAPI$
+//@   requires asked-with-the-previous-pages-next-link: link == $prevNext && r == caller.r && config == caller.config
